@@ -50,11 +50,11 @@ MIX = {
     "C01": (("valid", 0.3), ("mixed", 0.5), ("susp", 0.2)),
     "C02": (("valid", 0.3), ("mixed", 0.4), ("susp", 0.3)),
     "C03": (("valid", 0.3), ("mixed", 0.3), ("pressure", 0.1), ("susp", 0.3)),
-    "C04": (("valid", 0.3), ("mixed", 0.1), ("pressure", 0.4), ("susp", 0.2)),
+    "C04": (("valid", 0.25), ("mixed", 0.1), ("pressure", 0.35), ("susp", 0.2), ("swarm", 0.1)),
     "C05": (("valid", 0.6), ("susp", 0.3), ("pressure", 0.1)),
     "C09": (("valid", 0.3), ("mixed", 0.4), ("pressure", 0.15), ("susp", 0.15)),
     "C10": (("valid", 0.2), ("mixed", 0.3), ("susp", 0.5)),
-    "C11": (("pressure", 0.85), ("susp", 0.15)),
+    "C11": (("pressure", 0.7), ("susp", 0.1), ("swarm", 0.2)),
 }
 NTRACES = {"quick": 900, "thorough": 20000}
 SEED_OFFSET = {p: i * 7919 for i, p in enumerate(sorted(MIX))}
@@ -111,6 +111,9 @@ def deep_models(rep, prop):
 def validate(traces, rep: Report, prop: str, *, nshards=None):
     files = common.write_shards(traces, nshards or common.NCPU)
     mon = common.run_monitor("TraceExec", "TraceExec.cfg", files)
+    drift = [n for n in mon.notes]
+    if drift:
+        print(f"DRIFT: {len(drift)} tick(s) where the real code orders containers/results differently from the model (no property fixes that order; informational)")
     if "PRECOND" in json.dumps(mon.notes):
         raise MachineryError("a driver produced inputs on a float boundary for a stepping trace")
     by_tid = {tr[0]["tid"]: tr for tr in traces}
@@ -149,6 +152,10 @@ def run(prop: str, tier: str, extra=None) -> int:
     rep.traces += replay_exec.run(rep, prop, tier)
     n = NTRACES[tier]
     traces = driver_exec.gen_traces(n, common.seed() + SEED_OFFSET[prop], mix=MIX[prop])
+    if prop in ("C03", "C10", "C04"):
+        # long simulations (13 000 ticks, write-outs in progress most of the time) through the real priority policy, observed sparsely:
+        # tick-count-dependent behaviour of the pools only shows in runs of this length
+        traces += long_runs(4 if tier == "quick" else 48, common.seed() + SEED_OFFSET[prop])
     mon, owners = validate(traces, rep, prop)
     rep.traces += mon.traces
     rep.evaluations += mon.lines
@@ -168,9 +175,21 @@ def run(prop: str, tier: str, extra=None) -> int:
     return rep.finish()
 
 
+def _long(args):
+    from . import driver_sched
+    common.import_repo()
+    return driver_sched.long_run(*args)
+
+
+def long_runs(n, seed):
+    import multiprocessing as mp
+    with mp.get_context("fork").Pool(min(common.NCPU, n)) as pool:
+        return pool.map(_long, [(seed + i, 10**7 + i) for i in range(n)])
+
+
 def slim(e):
     if e["ev"] == "hdr":
-        return {"ev": "hdr", "cfg": {k: e["cfg"][k] for k in ("np", "cpucap", "ramcap", "oc", "multi", "tps", "U")},
+        return {"ev": "hdr", "cfg": {k: e["cfg"][k] for k in ("np", "cpucap", "ramcap", "oc", "multi", "tps", "U", "mode")},
                 "npipelines": len(e["wl"]), "meta": e.get("meta")}
     if e["ev"] == "round":
         return {"ev": "round", "t": e["t"], "sus": e["sus"], "asg": e["asg"], "raised": e["raised"]}
